@@ -67,51 +67,69 @@ def record_corpus(fam, tier, sd):
         t0 = time.time()
         binp = os.path.join(d, "sim.test")
         vlib.build_test_binary(fam.pkg, binp)
-        shards = min(vlib.NCPU, 16)
+        # The recorder processes run with the garbage collector off (see
+        # harness/sim/main_test.go), so a process must not live through too many
+        # scenarios: the thorough tier is cut into more, shorter-lived shards,
+        # at most one per core at a time.
+        width = min(vlib.NCPU, 16)
+        shards = width if tier == "quick" else width * 12
         extra_env = fam.prepare(tier, sd, d) if fam.prepare else {}
-        procs = []
-        for i in range(shards):
-            env = dict(os.environ, VERIF_OUT=os.path.join(d, "shard%02d.ndjson" % i), VERIF_TIER=tier,
+
+        def start(i):
+            env = dict(os.environ, VERIF_OUT=os.path.join(d, "shard%03d.ndjson" % i), VERIF_TIER=tier,
                        VERIF_SEED=str(sd), VERIF_SHARD="%d/%d" % (i, shards), TMPDIR=os.path.join(d, "tmp%d" % i), **extra_env)
-            os.makedirs(env["TMPDIR"])
-            out = open(os.path.join(d, "shard%02d.log" % i), "w")
-            procs.append((subprocess.Popen([binp, "-test.run", "TestCorpus", "-test.v", "-test.timeout", "3h"],
-                                           cwd=d, env=env, stdout=out, stderr=subprocess.STDOUT), out))
+            os.makedirs(env["TMPDIR"], exist_ok=True)
+            out = open(os.path.join(d, "shard%03d.log" % i), "w")
+            return (i, subprocess.Popen([binp, "-test.run", "TestCorpus", "-test.v", "-test.timeout", "3h"],
+                                        cwd=d, env=env, stdout=out, stderr=subprocess.STDOUT), out)
+
         failed = []
-        for i, (p, out) in enumerate(procs):
-            try:
-                rc = p.wait(timeout=3 * 3600)
-            except subprocess.TimeoutExpired:
-                p.kill()
-                rc = -9
-            out.close()
-            if rc != 0:
-                failed.append(i)
+        running = []
+        nxt = 0
+        deadline = time.time() + 4 * 3600
+        while nxt < shards or running:
+            while nxt < shards and len(running) < width:
+                running.append(start(nxt))
+                nxt += 1
+            still = []
+            for i, p, out in running:
+                rc = p.poll()
+                if rc is None:
+                    if time.time() > deadline:
+                        p.kill()
+                        rc = -9
+                    else:
+                        still.append((i, p, out))
+                        continue
+                out.close()
+                vlib.rmtree(os.path.join(d, "tmp%d" % i))
+                if rc != 0:
+                    failed.append(i)
+            running = still
+            time.sleep(0.2)
         scen = 0
         herr = []
         for i in range(shards):
-            txt = open(os.path.join(d, "shard%02d.log" % i), errors="replace").read()
+            txt = open(os.path.join(d, "shard%03d.log" % i), errors="replace").read()
             m = re.search(r"CORPUS scenarios=(\d+) ran=(\d+) events=(\d+) harnessErrors=(\d+)", txt)
             if m:
                 scen = max(scen, int(m.group(1)))
             herr += re.findall(r"HARNESS-ERROR (.*)", txt)
         if failed:
-            tail = open(os.path.join(d, "shard%02d.log" % failed[0]), errors="replace").read()[-3000:]
+            tail = open(os.path.join(d, "shard%03d.log" % failed[0]), errors="replace").read()[-3000:]
             raise Inconclusive("harness shard(s) %s did not finish cleanly:\n%s" % (failed, tail))
         # concatenate
         trace = os.path.join(d, "corpus.ndjson")
         n = 0
         with open(trace, "w") as out:
             for i in range(shards):
-                p = os.path.join(d, "shard%02d.ndjson" % i)
+                p = os.path.join(d, "shard%03d.ndjson" % i)
                 if os.path.exists(p):
                     for line in open(p):
                         out.write(line)
                         n += 1
                     os.remove(p)
             out.write(json.dumps({"ev": "End", "seq": 0, "inst": ""}) + "\n")
-        for i in range(shards):
-            vlib.rmtree(os.path.join(d, "tmp%d" % i))
         os.remove(binp)
         info = {"scenarios": scen, "events": n, "harness_errors": herr, "record_s": round(time.time() - t0, 1), "reused": False}
         json.dump(info, open(done, "w"))
@@ -129,7 +147,7 @@ def validate(fam, d, wd):
         c = json.load(open(cache))
         return [(a, [tuple(x) for x in b]) for a, b in c["reports"]], c["states"], c["transitions"], c["accepted"]
     rc, out, td = vlib.tlc(fam.trace_spec, fam.trace_cfg, wd, workers=1,
-                           env={"VERIF_TRACE": os.path.join(d, "corpus.ndjson")}, timeout=3600, xmx="8g")
+                           env={"VERIF_TRACE": os.path.join(d, "corpus.ndjson")}, timeout=3600, xmx="6g")
     states, trans = vlib.tlc_stats(out)
     accepted = "TRACE-END" in out and rc == 0
     if not accepted:
@@ -194,7 +212,7 @@ def model_check(fam, prop, tier, wd):
             runs.append(res)
             continue
         t0 = time.time()
-        rc, out, td = vlib.tlc(spec, cfg, wd, workers=vlib.NCPU, timeout=3 * 3600, xmx="14g")
+        rc, out, td = vlib.tlc(spec, cfg, wd, workers=vlib.NCPU, timeout=3 * 3600, xmx="6g")
         states, trans = vlib.tlc_stats(out)
         res = {"cfg": cfg, "states": states, "transitions": trans, "wall_s": round(time.time() - t0, 1),
                "expected": expect, "cached": False}
